@@ -21,6 +21,13 @@ Theorem C09_pad_tt_full (x : tt R) padding v idx :
     match in_block (shape x) (fill_pads (length x) padding) idx with Some i' => entry x i' | None => v end.
 Proof. exact (pad_tt_full x padding v idx). Qed.
 
+(* the fill is carried by the indicator of the complement of the original block, built with entries 0 and 1 only (two rank slots): it is
+   EXACTLY 0 on the block - no "value - value" is ever formed there, whatever the fill - and 1 everywhere else *)
+Theorem C09_pad_outside_indicator (ns : list nat) (pd : list (nat * nat)) idx :
+  ns <> [] -> length pd = length ns -> length idx = length ns ->
+  entry (outside_tt (R:=R) ns pd) idx = match in_block ns pd idx with Some _ => 0 | None => 1 end.
+Proof. exact (outside_full ns pd idx). Qed.
+
 (* cat((x, y), dim) for every axis *)
 Theorem C09_cat2_full (dim : nat) (x y : tt R) idx :
   wf x -> wf y -> length y = length x -> (dim < length x)%nat -> length idx = length x ->
@@ -84,6 +91,7 @@ Proof. exact (pad_ttm_full x padding value is_ js). Qed.
 End C09.
 Print Assumptions C09_remaps_entry.
 Print Assumptions C09_pad_tt_full.
+Print Assumptions C09_pad_outside_indicator.
 Print Assumptions C09_cat2_full.
 Print Assumptions C09_mprod1_full.
 Print Assumptions C09_mprod1_shape.
